@@ -39,6 +39,10 @@ CHECKS = {
             "exhaustive boundary sweep: every rule x network configuration x every probe height around the bound, through the real ValidateBlock, against an independent rule table",
             "For every height/time rule of the statement (maturity of every delayed output kind for v1 and v2 spenders, v1 unlock-condition and signature timelocks, v2 above/after/legacy-policy locks compared with the parent height / median of the last 11 timestamps, v1 and v2 revision, proof, expiration and formation windows, v1/v2 transaction version heights) on 12-16 network configurations (maturity delay 0..3 x allow/require placements) the otherwise-valid transaction is rejected at every probed height below the bound and accepted from the bound on (both directions are violations).",
             "Rule table (Appendix B of DESIGN.md) written from the statement; renewal timing w.r.t. the old contract and v1 proofs at the window-end height are not asserted.", "3/C08"),
+    "C09": ("E3", "model_checking",
+            "stateless DFS over thread interleavings under a controlled cooperative scheduler (preemption-bounded, adversarial sync.Pool object choice) + sequential purity bundle on every explored transition + separate free-running race-detector pass",
+            "(a) On every transition of a union-alphabet exploration and on invalid variants of every accepted block: inputs (state, block, every proof, supplement) bit-identical before/after ValidateBlock, ApplyBlock, RevertBlock and per-transaction MidState validation; repeated calls and a decode(encode()) copy give identical verdict, state bytes and update digest; per-transaction verdict equals the block verdict; returned updates and Copy()/DeepCopy() share no memory with the inputs. (b) Every interleaving of 2-3 callers (ValidateBlock, ApplyBlock, RevertBlock, multiproof encoding, IDs/sighashes, per-transaction validation) on shared inputs and both hasher pools, at scheduling points before every pool Get and after every pool Put, up to the stated preemption bound, with every choice of pooled object within the data-deviation bound: each result equals its sequential reference, inputs unchanged, exactly one global outcome. (c) The same bodies free-running under -race.",
+            "Scheduling points only at synchronisation operations (sequential consistency); unsynchronised accesses are the race detector's job (a detector, not exhaustive). sync.Pool is replaced in verification builds by the vsync shim through a build overlay.", "3/C09"),
     "C12": ("E2", "exploration",
             "bounded exhaustive single/pairwise field-mutation enumeration (reflection walk with a complete field classification) over transaction/block templates; all-pairs distinctness of derived IDs; era replay through the real ValidateBlock",
             "Every single (thorough: pairwise) field mutation of rich v1/v2 transaction templates changes the ID and all derived IDs iff the field is classified effect-bearing (unclassified fields fail the run); all derived-ID kinds x indices x parents are pairwise distinct; sighashes bind purpose (independent preimage model) and era (hash level and end-to-end replay across every era pair); every content mutation of real v1/v2 blocks is rejected or changes the ID, v2 commitments bind every encoded state field and the miner address.",
